@@ -17,7 +17,14 @@ Read live (Rust entry point → field):
 * minter `_execute_mint` → `mint_fee_bps` (public mint), `airdrop_mint_price` + `airdrop_mint_fee_bps` (`mint_to`),
   open edition: `dev_fee_address`; base-minter `execute_mint_sender` → `mint_fee_bps`
 * minter `execute_shuffle` → `shuffle_fee`; `execute_update_per_address_limit` → `max_per_address_limit`;
-  `execute_update_mint_price` → `min_mint_price`; `execute_update_start_trading_time` → `max_trading_offset_secs`
+  `execute_update_mint_price` → `min_mint_price`; `execute_update_start_trading_time` → `max_trading_offset_secs`;
+  `execute_set_whitelist` → `min_mint_price` (amount and denom against the whitelist's price; vending and open-edition families)
+* every factory's `migrate(Option<UpdateParamsMsg>)` applies the SAME update as `sudo UpdateParams` when a message is given
+  (`Op.mig`); `None` changes nothing
+
+Live reads that exist in the code and are NOT modelled (out of C18's scope — the property names "creations and mints"):
+`execute_update_discount_price` → `min_mint_price` (vending family), the `MintPrice` query → `airdrop_mint_price`,
+minter `instantiate` with a whitelist (whitelist price ≥ `min_mint_price`).
 
 Captured at creation (NOT re-read; changing the factory later has no effect on an existing minter):
 * base-minter `CONFIG.mint_price` := the factory's `min_mint_price` at creation        → `MinterRec.price`
@@ -350,10 +357,23 @@ def setPrice (p : Params) (r : MinterRec) (now : Nat) (price : Nat) : Except Err
   if r.kind.isOe && r.numTokens.isNone && price = 0 then throw .invalid
   pure { r with price := ⟨r.price.denom, price⟩ }
 
+/-- admin `SetWhitelist{whitelist}` before the sale starts, with an inactive whitelist whose price is `wlp` (vending and
+open-edition families): the whitelist price must be at least the factory's CURRENT `min_mint_price` and in its denom. (The
+harness keeps the whitelist's denom equal to the minter's own price denom; that comparison is not a governance matter.) -/
+def setWl (p : Params) (r : MinterRec) (now : Nat) (wlp : Coin) : Except Err Unit := do
+  if !(r.kind.isVending || r.kind.isOe) then throw .other
+  if now ≥ r.start then throw .tooLate
+  let some m := p.minMintPrice | throw .other
+  if m.amount > wlp.amount then throw .invalid
+  if m.denom != wlp.denom then throw .invalid
+  pure ()
+
 /-! ## operations of the composite aspect world -/
 
 inductive Op where
   | upd (u : AnyUpd)
+  /-- `migrate` of the factory (same code id) with `Some(update message)` or `None` -/
+  | mig (u : Option AnyUpd)
   | create (slot : Nat) (a : CreateArgs)
   | mint (slot now : Nat) (funds : List Coin)
   | airdrop (slot : Nat) (funds : List Coin)
@@ -362,6 +382,7 @@ inductive Op where
   | ustt (slot now : Nat) (t : Option Nat)
   | setPrice (slot now price : Nat)
   | status (slot : Nat) (v b e : Bool)
+  | setWl (slot now : Nat) (wlp : Coin)
 deriving Repr
 
 /-- The bank module (chain and cw-multi-test alike) rejects a burn / send of a zero amount
@@ -372,6 +393,8 @@ def bankOk (ms : List Msg) : Except Err (List Msg) :=
 
 def step (e : Env) (w : World) : Op → Except Err (World × List Msg)
   | .upd u => do let p ← w.params.sudo u; pure ({ w with params := p }, [])
+  | .mig none => pure (w, [])
+  | .mig (some u) => do let p ← w.params.sudo u; pure ({ w with params := p }, [])
   | .create slot a => do let (r, ms) ← create e w.params a; let ms ← bankOk ms; pure (w.setMinter slot r, ms)
   | .mint slot now funds => do
     let some r := w.minter slot | throw .notFound
@@ -394,6 +417,9 @@ def step (e : Env) (w : World) : Op → Except Err (World × List Msg)
   | .status slot v b e' => do
     let some r := w.minter slot | throw .notFound
     let s ← updateStatus r.kind r.status v b e'; pure (w.setMinter slot { r with status := s }, [])
+  | .setWl slot now wlp => do
+    let some r := w.minter slot | throw .notFound
+    setWl w.params r now wlp; pure (w, [])
 
 /-- transactional step: a failed operation leaves the world unchanged -/
 def step' (e : Env) (w : World) (op : Op) : World :=
@@ -407,6 +433,30 @@ def run (e : Env) (w : World) (ops : List Op) : World := ops.foldl (step' e) w
 def updatesOf : List Op → List AnyUpd
   | [] => []
   | .upd u :: t => u :: updatesOf t
+  | .mig (some u) :: t => u :: updatesOf t
   | _ :: t => updatesOf t
+
+/-! ## update lines with the implementation's verdict as a CHECKED witness
+
+The property fixes what an update that TAKES EFFECT does, and that a non-native minimum price is refused; it does not
+demand that every other update be accepted (a later hardening may refuse e.g. `mint_fee_bps > 10000`). The driver is
+therefore told whether the implementation accepted (`acc`): a refusal the model does not have leaves the params unchanged
+on both sides and is reported outside the projection (DRIFT); an acceptance the model does not have is a disagreement. -/
+
+inductive Verdict where
+  /-- accepted by both: the params are replaced -/
+  | applied
+  /-- refused by both -/
+  | refused
+  /-- the model accepts, the implementation refused: nothing changes (outside the projection) -/
+  | refusedByCodeOnly
+  /-- the model refuses, the implementation accepted: DISAGREEMENT -/
+  | acceptedByCodeOnly
+deriving Repr, DecidableEq
+
+def updW (P : Params) (u : AnyUpd) (acc : Bool) : Params × Verdict :=
+  match P.sudo u with
+  | .ok P' => if acc then (P', .applied) else (P, .refusedByCodeOnly)
+  | .error _ => (P, if acc then .acceptedByCodeOnly else .refused)
 
 end LP.Gov
